@@ -1385,7 +1385,9 @@ class Emitter:
                     return self.expr(base)
             except Unsupported:
                 pass
-        ent = self.calls.get(cls + '::' + nm)
+        ent = (self.f.get('calls') or {}).get(cls + '::' + nm)      # per-function override (e.g. a callee replaced by its contract model in one caller only)
+        if ent is None:
+            ent = self.calls.get(cls + '::' + nm)
         if ent is None:
             ent = self.rx_call(cls + '::' + nm)
         if callable(ent):
